@@ -33,7 +33,8 @@ type dictQuery struct {
 
 type dictCase struct {
 	Batch      *spec.BatchSpec `json:"batch"`
-	Provenance int             `json:"provenance"` // 0 built, 1 opened, 2 merged once, 3 merged twice
+	Provenance int             `json:"provenance"` // 0 built, 1 opened, 2 merged once, 3 merged twice, 4 merged after a segment without these fields, with deletions
+	Drops      []spec.DropSpec `json:"drops,omitempty"` // provenance 4: deletions of the neighbour (3 docs) and of the batch
 	ChunkMode  uint32          `json:"chunkMode"`
 	Queries    []dictQuery     `json:"queries"`
 }
@@ -53,9 +54,9 @@ func genDictTerm(t *rapid.T, label string) string {
 
 type containsByte struct{ b byte }
 
-func (c containsByte) Start() int               { return 0 }
-func (c containsByte) IsMatch(s int) bool       { return s == 1 }
-func (c containsByte) CanMatch(int) bool        { return true }
+func (c containsByte) Start() int                 { return 0 }
+func (c containsByte) IsMatch(s int) bool         { return s == 1 }
+func (c containsByte) CanMatch(int) bool          { return true }
 func (c containsByte) WillAlwaysMatch(s int) bool { return s == 1 }
 func (c containsByte) Accept(s int, b byte) int {
 	if s == 1 || b == c.b {
@@ -212,7 +213,10 @@ func genDictCase(t *rapid.T) dictCase {
 		}
 	}
 	c.Batch = &spec.BatchSpec{Docs: docs}
-	c.Provenance = rapid.SampledFrom([]int{2, 3, 0, 1}).Draw(t, "provenance")
+	c.Provenance = rapid.SampledFrom([]int{2, 3, 0, 1, 4}).Draw(t, "provenance")
+	if c.Provenance == 4 {
+		c.Drops = []spec.DropSpec{gen.GenDrop(t, "dropNeighbour", 3), gen.GenDrop(t, "dropBatch", nDocs)}
+	}
 	c.ChunkMode = gen.ChunkMode(t, "cm")
 
 	boundPool := append([]string{"", "\x00", "a", "b", "c", "\x7f", "é", "zz", "ab", "a\x00"}, allTerms...)
@@ -272,6 +276,24 @@ func genDictCase(t *rapid.T) dictCase {
 	return c
 }
 
+// neighbourBatch is a fixed segment that has none of the dictionary fields.
+func neighbourBatch() *spec.BatchSpec {
+	b := &spec.BatchSpec{}
+	for i := 0; i < 3; i++ {
+		b.Docs = append(b.Docs, spec.DocSpec{ID: spec.B(fmt.Sprintf("o%d", i)), Fields: []spec.FieldSpec{{Name: "h", Type: 't', Len: 1, Tokens: []spec.TokenSpec{{Term: "x", Freq: 1}}}}})
+	}
+	return b
+}
+
+// dictPlan is the merge plan of provenance 4.
+func dictPlan(c dictCase) *spec.MergePlan {
+	drops := c.Drops
+	for len(drops) < 2 {
+		drops = append(drops, spec.DropSpec{Nil: true})
+	}
+	return &spec.MergePlan{ChunkMode: c.ChunkMode, Children: []spec.MergePlan{{Leaf: neighbourBatch(), ChunkMode: c.ChunkMode}, {Leaf: c.Batch, ChunkMode: c.ChunkMode, Mmap: true}}, Drops: drops[:2]}
+}
+
 // provenanceSegment builds the batch and takes it through the requested provenance.
 func provenanceSegment(prop string, b *spec.BatchSpec, provenance int, chunkMode uint32) (segment.Segment, func(), *Violation) {
 	switch provenance {
@@ -299,11 +321,29 @@ func provenanceSegment(prop string, b *spec.BatchSpec, provenance int, chunkMode
 func runDictCase(c dictCase) *Violation {
 	const prop = "C08"
 	want := spec.Expect(c.Batch)
-	seg, closeFn, v := provenanceSegment(prop, c.Batch, c.Provenance, c.ChunkMode)
-	if v != nil {
-		return v
+	var seg segment.Segment
+	var closeFn func()
+	if c.Provenance == 4 {
+		plan := dictPlan(c)
+		want = spec.ExpectResolved(spec.Resolve(plan))
+		var res *drive.PlanResult
+		if err := drive.Safe(func() error {
+			var e error
+			res, e = drive.RunPlan(plan)
+			return e
+		}); err != nil {
+			return violation(prop, "provenance/error", "%v", err)
+		}
+		seg, closeFn = res.Seg, res.Close
+	} else {
+		var v *Violation
+		seg, closeFn, v = provenanceSegment(prop, c.Batch, c.Provenance, c.ChunkMode)
+		if v != nil {
+			return v
+		}
 	}
 	defer closeFn()
+	var v *Violation
 	err := drive.Safe(func() error {
 		for qi, q := range c.Queries {
 			a, err := buildAutomaton(q)
@@ -421,6 +461,9 @@ var c08 = Check[dictCase]{
 	Gen: genDictCase, Run: runDictCase,
 	Classify: func(c dictCase) (bool, []string) {
 		want := spec.Expect(c.Batch)
+		if c.Provenance == 4 {
+			want = spec.ExpectResolved(spec.Resolve(dictPlan(c)))
+		}
 		cl := []string{fmt.Sprintf("provenance=%d", c.Provenance)}
 		terms := want.Index["f"]
 		nt := false
